@@ -10,11 +10,11 @@ exception class and OPC constrains the state.
 """
 from pyvc.contracts import contract
 from pyvc.vocab import (forall, implies, ubig, sdecode, pow2, items_of, str_keys_same, strint_keys_same,
-                        is_bytes_or_absent, is_bool_or_absent, list_len_at,
+                        is_bytes_or_absent, is_bool_or_absent, list_len_at, is_list_or_absent,
                         take_top, put_all, all_nonempty, AnyError, sha256, shake256, fresh_bytes, ghost)
 from tapescript.errors import ScriptExecutionError
 from tapescript.functions import (int_to_bytes, bytes_to_int, bytes_to_bool, not_bytes, bytes_to_float,
-                                  float_to_bytes)
+                                  float_to_bytes, flags)
 from contracts.common import stack_ok, tape_ok
 import struct
 
@@ -35,8 +35,20 @@ def flags_typed(tape):
     return [(f'flag{i}.bool', is_bool_or_absent(tape.flags, i)) for i in range(0, 11)]
 
 
+def flags_complete(tape):
+    """every flag the interpreter knows is present (set_tape_flags puts them there at the start of
+    every run_tape)"""
+    return [(f'flag[{k!r}].present', k in tape.flags) for k in flags if type(k) in (str, int)]
+
+
+def plugins_typed(tape):
+    return [('plugins.sigext.list', is_list_or_absent(tape.plugins, 'signature_extensions')),
+            ('plugins.ctv.list', is_list_or_absent(tape.plugins, 'check_template'))]
+
+
 def vm_ok(tape, stack, cache):
-    return tape_ok(tape) + stack_ok(stack) + [('clean', clean(cache))] + sigfields_ok(cache) + flags_typed(tape)
+    return tape_ok(tape) + stack_ok(stack) + [('clean', clean(cache))] + sigfields_ok(cache) + flags_typed(tape) + \
+        flags_complete(tape) + plugins_typed(tape)
 
 
 def opc_post(old, tape, stack, cache, raised):
@@ -50,10 +62,12 @@ def opc_post(old, tape, stack, cache, raised):
         ('!ks-frame', implies(no_plugins_at_all(tape), str_keys_same(old.cache, cache))),
         # C08, the form every op meets and dispatch may assume: str keys other than 'returned' untouched
         ('ks-frame-but-returned', implies(no_plugins_at_all(tape), ks_same_but_returned(old.cache, cache))),
-        # C09: no instruction changes a str / int flag (the two flag instructions: see their contracts)
-        ('flags-frame', strint_keys_same(old.tape.flags, tape.flags)),
         ('callstack.monotone', tape.callstack_count >= old.tape.callstack_count),
-    ]
+    ] + sigfields_ok(cache) + flags_typed(tape) + flags_complete(tape)
+
+
+def sigfields_ok_if(c, cache):
+    return [(l, implies(c, v)) for l, v in sigfields_ok(cache)]
 
 
 def no_plugins_at_all(tape):
@@ -82,7 +96,18 @@ class OPC:
         return opc_post(old, tape, stack, cache, raised)
 
 
-OPCK = 'functions.<OPC>'
+@contract('functions.<OPF>')
+class OPF:
+    """OPC plus C09: 'only the documented flag instructions change a flag' -- every instruction except
+    OP_SET_FLAG / OP_UNSET_FLAG leaves all str / int flags as they are"""
+    extends = 'functions.<OPC>'
+
+    def ensures(old, tape, stack, cache, result, raised):
+        return [('flags-frame', strint_keys_same(old.tape.flags, tape.flags))]
+
+
+OPC_WEAK = 'functions.<OPC>'
+OPCK = 'functions.<OPF>'
 STACK_ONLY = ('stack.deque',)
 TAPE_STACK = ('tape.pointer', 'stack.deque')
 
